@@ -44,7 +44,9 @@ def coveredTheorems : List String := [
   "C17_highlight_no_panic",
   "C17_highlight_late_no_panic",
   "C17_md_emph_no_panic",
-  "C17_form_cleanup_no_nil_deref"
+  "C17_form_cleanup_no_nil_deref",
+  -- after seeded change C17-makemap-unchecked-pair-length
+  "C17_makeMap_no_panic"
 ]
 
 end C17
